@@ -5,6 +5,7 @@ go 1.25.3
 require (
 	github.com/anishathalye/porcupine v1.3.0
 	go4.org v0.0.0-20230225012048-214862532bf5
+	golang.org/x/crypto v0.38.0
 	perkeep.org v0.0.0
 )
 
@@ -59,7 +60,6 @@ require (
 	go.opencensus.io v0.24.0 // indirect
 	go4.org/mem v0.0.0-20240501181205-ae6ca9944745 // indirect
 	go4.org/netipx v0.0.0-20231129151722-fdeea329fbba // indirect
-	golang.org/x/crypto v0.38.0 // indirect
 	golang.org/x/exp v0.0.0-20250210185358-939b2ce775ac // indirect
 	golang.org/x/image v0.27.0 // indirect
 	golang.org/x/net v0.40.0 // indirect
